@@ -14,8 +14,8 @@ Print D_wellformed.
 Definition D_unstructured := Eval vm_compute in unstructured. Print D_unstructured.
 Definition D_may_leak := Eval vm_compute in may_leak. Print D_may_leak.
 Definition D_spec_problems := Eval vm_compute in spec_problems. Print D_spec_problems.
-Definition D_well_locked := Eval vm_compute in well_locked_from guards funcs entries. Print D_well_locked.
-Definition D_diagnose := Eval vm_compute in diagnose_from guards funcs entries. Print D_diagnose.
+Definition D_well_locked := Eval vm_compute in well_locked_from guards owners funcs entries. Print D_well_locked.
+Definition D_diagnose := Eval vm_compute in diagnose_from guards owners funcs entries. Print D_diagnose.
 Definition D_wrappers := Eval vm_compute in wrappers_ok funcs registered main_callbacks listener_callbacks.
 Print D_wrappers.
 Definition D_bad_registrations := Eval vm_compute in
